@@ -102,7 +102,7 @@ def plan(ctx):
     T = 50 if ctx["tier"] == "quick" else 300
     for i, prog in enumerate(txt.PROGRAMS):
         obs.append(Obligation(f"txt.soundness.p{i}", "xh", "txt", "error_line", param={"program": i, "soundness": True}, timeout=T * 6,
-                              bounds="one of 18 concrete programs; stray text from 32 samples inserted at (or the text truncated at) every token boundary, under LF / CRLF / ; variants; "
+                              bounds="one of 20 concrete programs; stray text from 37 samples inserted at (or the text truncated at) every token boundary, under LF / CRLF / ; variants; "
                                      "with / without an earlier list_names() and a parse cache (finite domain chosen by the solver, boundaries looped natively; real lexer+parser)",
                               desc=f"program {i} damaged at every token boundary: if the real parser accepts the text, the published token definitions accept it and the published productions derive its token string "
                                    "(independent tokeniser + Earley recogniser over spec/grammar_ref.json; line breaks inside brackets dropped, ';' always a separator)"))
